@@ -8,7 +8,8 @@ ID = 'C11'
 MASK = X.M_MEM | X.M_RESULTS
 TOL = F(1, 10 ** 6)
 ASSUMPTIONS = ['float near-ties of scores (relative difference below 1e-9) are not judged by the monitor; the model '
-               'computes the score with the two float operations of the code']
+               'computes the score with the two float operations of the code; theorem C11_float_no_survivor_clearly_above '
+               'shows a relative gap above 5*2^-53 can never be reordered by rounding, C11_float_gap_needed that a gap is needed']
 
 
 def monitor(run):
